@@ -15,7 +15,27 @@ type cartSpec struct {
 	RAMCode uint8 `json:"ram"`
 }
 
-func (s cartSpec) pages() int { return 2 << s.ROMCode }
+func (s cartSpec) pages() int {
+	switch s.ROMCode {
+	case 0x52: // the three in-between sizes some header tables list (1.1, 1.2, 1.5 MiB)
+		return 72
+	case 0x53:
+		return 80
+	case 0x54:
+		return 96
+	}
+	return 2 << s.ROMCode
+}
+
+// tryCartPair: nil when the emulator rejects the image at construction (an accepted image must behave as documented).
+func tryCartPair(s cartSpec) (p *cartPair) {
+	defer func() {
+		if recover() != nil {
+			p = nil
+		}
+	}()
+	return newCartPair(s)
+}
 
 func (s cartSpec) String() string {
 	return fmt.Sprintf("type=%02x rom=%d ram=%d", s.Type, s.ROMCode, s.RAMCode)
